@@ -789,7 +789,7 @@ func wlOpts(seed int64) {
 				h.Headers = bad
 				l.S.Deliver(&Rpc{Id: id + 6, Header: h})
 				l.S.Deliver(&Rpc{Id: id + 7, Header: hdr("/verif.Echo/Unary2", "src", "dst"), Body: &goatorepo.Body{Data: []byte{0xff, 0xff}}}) // undecodable body
-				l.S.Deliver(&Rpc{Id: id + 8, Header: hdr("/verif.Echo/Bidi", "src", "dst"), Trailer: &goatorepo.Trailer{}}) // an end for a stream that never began
+				l.S.Deliver(&Rpc{Id: id + 8, Header: hdr("/verif.Echo/Bidi", "src", "dst"), Trailer: &goatorepo.Trailer{}})                     // an end for a stream that never began
 				l.S.Deliver(&Rpc{Id: id + 9, Header: hdr("/verif.Echo/Bidi", "src", "dst"), Reset_: &goatorepo.Reset{Type: "RST_STREAM"}})
 				// and towards the client: replies nobody waits for
 				l.C.Deliver(&Rpc{Id: id + 10, Header: hdr("/verif.Echo/Unary", "dst", "src"), Body: &goatorepo.Body{Data: body}})
